@@ -99,6 +99,7 @@ TraceOwn == /\ WellFormed(raw)
 (* a message the bus forwarded (raw) for an originator whose true unique name is c.sender and who sent
    c.orig: well-formed, and unchanged except that SENDER is the true name whatever the originator wrote *)
 TraceForward == /\ WellFormed(raw)
+                /\ raw[3] = c.orig[3]            \* the whole flags byte, the bits of later protocol versions included
                 /\ LET a == Recovered(c.orig)
                        b == Recovered(raw)
                    IN b = [a EXCEPT !.fields = {f \in a.fields : f[1] # 7} \cup {<<7, <<"s">>, c.sender>>}]
